@@ -459,3 +459,26 @@ Proof.
   - apply Hc; unfold two64; lia.
   - intros r v E; discriminate.
 Qed.
+
+(* ---- tie of the thread-loop model to processor.rs (translate/c03_sites.py, regenerated on every run): who counts as the
+   requesting thread, which context it is walked from and which memory the walk falls back to are the `.or()` expressions of
+   the source with their operand order, and the stack-pointer probe has the source's width.  (The translator also pins the
+   ORDER of the steps of both passes — dump-writer test before the context selection; stack memory, probe, fall-back,
+   walk_stack, unloaded-module offsets, argument recovery, inc_processed_threads — and aborts when it changes.) *)
+Theorem c03_process_matches_source :
+  (forall pi t, opt_is (pi_dump_tid pi) (th_id t) = false ->
+     s0_req (initial_stack pi t) = opt_is (Gen.C03Sites.gen_wanted_id (pi_crash_tid pi) (pi_req_tid pi)) (th_id t)) /\
+  (forall pi t, opt_is (pi_dump_tid pi) (th_id t) = false ->
+     s0_ctx (initial_stack pi t) =
+     if opt_is (Gen.C03Sites.gen_wanted_id (pi_crash_tid pi) (pi_req_tid pi)) (th_id t)
+     then Gen.C03Sites.gen_selected_context (pi_exc_ctx pi) (th_ctx t) else th_ctx t) /\
+  (forall mem t r v,
+     choose_stack_memory mem t (Some (r, v)) =
+     let sm := thread_stack_memory mem t in
+     if match sm with Some m => region_reads m Gen.C03Sites.gen_stack_probe_bytes (C05.Model.r_sp r) | None => false end
+     then sm else Gen.C03Sites.gen_stack_fallback (memory_at mem (C05.Model.r_sp r)) sm).
+Proof.
+  exact (conj C03.SitesTie.requesting_flag_from_source
+              (conj C03.SitesTie.selected_context_from_source C03.SitesTie.stack_choice_from_source)).
+Qed.
+Print Assumptions c03_process_matches_source.
